@@ -228,6 +228,13 @@ func (c *UDPConn) enqueue(d Dgram) {
 	c.mu.Unlock()
 }
 
+// SetWriteHook installs (or clears) the write hook while other goroutines may be writing.
+func (c *UDPConn) SetWriteHook(h func(b []byte, addr net.Addr) (int, error, bool)) {
+	c.mu.Lock()
+	c.WriteHook = h
+	c.mu.Unlock()
+}
+
 // Inject places a datagram in the receive queue as if it came from src.
 func (c *UDPConn) Inject(data []byte, src *net.UDPAddr) {
 	c.enqueue(Dgram{At: time.Now(), Src: src, Dst: c.local, Data: append([]byte{}, data...), Routed: true})
